@@ -179,13 +179,14 @@ Definition unit_is_wrapped (t : list (string * hook)) (u : unit_spec) : bool :=
     let occ := filter (fun l => leaf_is_call c l && (String.eqb (u_loop u) "" || in_loop (u_loop u) (lf_path l))) ls in
     negb (Nat.eqb (length occ) 0) && forallb (fun l => path_ok u (lf_path l)) occ) (u_calls u).
 
-(* the units that are genuinely not wrapped per item on the current tree (known findings) *)
-Definition kf_C15_1 (uid : string) : bool := String.eqb uid "v2.borrow".
+(* the units that are genuinely not wrapped per item on the current tree (known findings).
+   (kf_C15_1, the V2 borrow unit, is repaired: LiquidateBorrows runs each borrow inside
+   ApplyFuncIfNoError since fix C09-F3 / C15-F1) *)
 Definition kf_C15_3 (uid : string) : bool := String.eqb uid "v2.surplusdebt".
 (* environment class: the liquidation parameters are absent from the parameter store; GetParams
    (unwrapped prologue of both sweeps) panics *)
 Definition kf_C15_4 (params_present : bool) : bool := negb params_present.
-Definition unit_known_unwrapped (u : unit_spec) : bool := kf_C15_1 (u_id u) || kf_C15_3 (u_id u).
+Definition unit_known_unwrapped (u : unit_spec) : bool := kf_C15_3 (u_id u).
 
 (* ------------------------------------------------------------------------------------------ *)
 (* what stands outside every wrap                                                              *)
@@ -218,7 +219,6 @@ Inductive justification :=
    changed slice / index expression) is not in this list and breaks c15_unwrapped_total *)
 Definition unwrapped_registry : list (leaf_kind * justification) := [
   (LRisk "index" "appIds[i]", JRangeIndex);
-  (LRisk "index" "newBorrowIDs[l]", JRangeIndex);
   (LRisk "index" "data.Rates[index]", JGuardedIndex);
   (LRisk "slice" "twa.PriceValue[:0]", JSliceZero);
   (LRisk "slice" "totalVaults[start:end]", JSliceWindow);
@@ -232,7 +232,6 @@ Definition unwrapped_registry : list (leaf_kind * justification) := [
   (LCall "bandoracle.SetOracleValidationResult" Writes, JStoreWrite);
   (LCall "market.UpdatePriceList" Writes, JMarket);
   (LCall "bandoracle.FetchPrice" Writes, JBand);
-  (LCall "liquidationsV2.LiquidateIndividualBorrow" Writes, JKnownFinding);
   (LCall "liquidationsV2.CheckStatsForSurplusAndDebt" Writes, JKnownFinding)
 ].
 
